@@ -127,6 +127,8 @@ class SymArray:
     def _ew(self, o, f):
         if isinstance(o, Cat):
             return NotImplemented
+        if not isinstance(o, SymArray) and getattr(o, "__array_priority__", 0) > self.__array_priority__:
+            return NotImplemented      # numpy defers to the operand of higher priority (pint quantities): its reflected operator runs
         self_live = self
         self = self._frozen()
         if isinstance(o, _np_mod.ndarray) and o.ndim in (1, 2) and o.size <= 8:
@@ -138,6 +140,9 @@ class SymArray:
                 return SymArray(self.shape, lambda i, k: f(self.at(i, k), o.at(SI(0), k)), self.guard)      # (n,m) op (1,m): numpy row broadcasting
             if self.ndim == o.ndim == 2 and o.shape[1].concrete() == 1 and self.shape[1].concrete() != 1:
                 return SymArray(self.shape, lambda i, k: f(self.at(i, k), o.at(i, SI(0))), self.guard)      # (n,m) op (n,1)
+            if self.ndim == o.ndim and any((x.concrete() == 1) != (y.concrete() == 1) for x, y in zip(self.shape, o.shape)) \
+                    and self.guard is None and o.guard is None:
+                return _broadcast(self, o, f)
             if self.ndim == o.ndim:
                 _shape_ob(self.shape, o.shape)
                 g = _and_guard(self.guard, o.guard)
@@ -146,7 +151,7 @@ class SymArray:
                 return SymArray(self.shape, lambda i, k: f(self.at(i, k), o.at(k)), self.guard)
             if self.ndim == 1 and o.ndim == 2:
                 return SymArray(o.shape, lambda i, k: f(self.at(k), o.at(i, k)), o.guard)
-            raise Unsupported("broadcast")
+            return _broadcast(self, o, f)
         if isinstance(o, (list, tuple)):
             raise Unsupported("array op python sequence")
         return SymArray(self.shape, lambda *i: f(self.at(*i), o), self.guard)
@@ -249,7 +254,7 @@ class SymArray:
                 if isinstance(a, slice) and a == slice(None) and isinstance(b, slice) and b.start is None and b.step is None:
                     stop = _si(b.stop)
                     return SymArray((self.shape[0], stop), lambda i, k: self.at(i, k), self.guard)
-            raise Unsupported(f"index {key!r}")
+            return _general_index(self, key)
         if isinstance(key, Cat):
             raise Unsupported("index by a concatenation")
         if isinstance(key, SymArray):
@@ -355,6 +360,74 @@ class SymArray:
 
     def flush(self):
         pass
+
+
+def _broadcast(a, o, f):
+    """general numpy broadcasting of two unguarded arrays: shapes aligned from the right; an axis of CONCRETE length 1 (or a missing axis) is
+    repeated, every other pair of axis lengths must be equal (shape obligation).  A symbolic axis is never treated as length 1 (stricter than
+    numpy: a symbolic length that happened to be 1 would be broadcast by numpy, here it is a shape obligation)."""
+    if a.guard is not None or o.guard is not None:
+        raise Unsupported("broadcast of masked selections")
+    nd = max(a.ndim, o.ndim)
+    sa = (None,) * (nd - a.ndim) + tuple(a.shape)
+    so = (None,) * (nd - o.ndim) + tuple(o.shape)
+    shape, ma, mo = [], [], []
+    for x, y in zip(sa, so):
+        x1 = x is None or x.concrete() == 1
+        y1 = y is None or y.concrete() == 1
+        if x1 and not y1:
+            shape.append(y), ma.append(None if x is None else 0), mo.append("k")
+        elif y1 and not x1:
+            shape.append(x), ma.append("k"), mo.append(None if y is None else 0)
+        elif x1 and y1:
+            shape.append(x if x is not None else (y if y is not None else SI(1)))
+            ma.append(None if x is None else 0), mo.append(None if y is None else 0)
+        else:
+            _shape_ob((x,), (y,))
+            shape.append(x), ma.append("k"), mo.append("k")
+
+    def pick(m, idx):
+        return [idx[d] if w == "k" else SI(0) for d, w in enumerate(m) if w is not None]
+    return SymArray(tuple(shape), lambda *i: f(a.at(*pick(ma, i)), o.at(*pick(mo, i))))
+
+
+def _general_index(a, key):
+    """basic indexing with a tuple of full slices, slices [:stop] / [start:], integers and np.newaxis (views in numpy: reads stay live)"""
+    out_shape, plan = [], []        # plan per source axis: ("k", out position, offset) | ("c", index)
+    src = 0
+    for it in key:
+        if it is None:
+            out_shape.append(SI(1))
+            continue
+        if src >= a.ndim:
+            raise Unsupported(f"index {key!r}")
+        if isinstance(it, slice):
+            if it.step is not None:
+                raise Unsupported("slice step")
+            n = a.shape[src]
+            start = _si(it.start) if it.start is not None else SI(0)
+            stop = _si(it.stop) if it.stop is not None else n
+            if (start.concrete() is not None and start.concrete() < 0) or (stop.concrete() is not None and stop.concrete() < 0):
+                raise Unsupported("negative slice bound")
+            plan.append(("k", len(out_shape), start))
+            out_shape.append(stop - start)
+        elif isinstance(it, (int, SI)):
+            _idx_ob(it, a.shape[src])
+            plan.append(("c", _si(it)))
+        else:
+            raise Unsupported(f"index {key!r}")
+        src += 1
+    while src < a.ndim:
+        plan.append(("k", len(out_shape), SI(0)))
+        out_shape.append(a.shape[src])
+        src += 1
+
+    def fn(*idx):
+        full = []
+        for p_ in plan:
+            full.append(idx[p_[1]] + p_[2] if p_[0] == "k" else p_[1])
+        return a.at(*full)
+    return SymArray(tuple(out_shape), fn, a.guard if a.ndim == 1 and len(out_shape) == 1 else None, a.kind)
 
 
 def _prod_shape(shape):
